@@ -141,6 +141,31 @@ def run(tier):
         chk.violation(f"C02|spec-invariant|{','.join(res.violated)}", "reference partitions join unrelated households", {"out": res.out[-2000:]})
     else:
         chk.add_mc(res, "MC_Households[two households: InvNesting incl. fg/bg/wthh within hh]")
+    # B: pairs of TLC-enumerated closed structures side by side (second one in other households): the implementation's
+    # units of the union must be the reference units (which are per connected component), under all row orders
+    small = [p for p in pops if 1 <= len(p) <= (2 if quick else 3)]
+    pairs = []
+    for _ in range(400 if quick else 4000):
+        a, b = rnd.choice(small), rnd.choice(small)
+        na = len(a)
+        hh_off = 1 + max(r["hh"] for r in a)
+        sh = lambda v: 0 if v == 0 else v + na  # noqa: E731
+        b2 = [{**r, "hh": r["hh"] + hh_off, "partner": sh(r["partner"]), "spouse": sh(r["spouse"]), "e1": sh(r["e1"]), "e2": sh(r["e2"])} for r in b]
+        pairs.append([dict(r) for r in a] + b2)
+    from c12 import collect, short
+
+    ev = collect(chk, pairs, rnd, 24, "pairs")
+    verdicts, st = units.judge(ev, chk.work, "pairs")
+    chk.cov["traces_validated_against_impl"] += st["judged"]
+    seen_pairs = set()
+    for idx, clause in verdicts:
+        if clause == "generator":
+            raise RuntimeError("generator produced an ill-formed union of structures")
+        if clause.startswith(("ref:", "nest:", "raised")) and clause not in seen_pairs:
+            seen_pairs.add(clause)
+            chk.violation(f"C02|union-{clause}|via=registry", f"units of two unrelated structures simulated together differ from the per-structure reference; smallest: {short(ev[idx]['pop'])}", {"pop": ev[idx]["pop"], "obs": ev[idx]["obs"], "clause": clause})
+    for e in ev:
+        chk.distinct("u:" + short(e["pop"]))
     dates = ["2023-01-01"] + rnd.sample([d for d in DATES if d != "2023-01-01"], 2 if quick else len(DATES) - 1)
     njobs = 16 if quick else 200
     jobs = [(dates[t % len(dates)], rnd.randrange(1 << 30), t, str(chk.work)) for t in range(njobs)]
